@@ -40,9 +40,13 @@ static void cv_sp_add_ref(struct cv_sp_cb *cb) {
 static void cv_sp_release(struct cv_sp_cb *cb) {
   __CPROVER_assert(cb->strong >= 1, "shared_ptr released although the strong count is already 0 (count would go negative)");
   cb->strong--;
+  if (cv_sp_depth != 0) {
+    /* a shared_ptr member of the pointee is destroyed while the pointee's destructor runs: it may give up a reference, but a
+     * second drop-to-zero from inside a destructor is outside the model (and keeps the call graph free of real recursion) */
+    __CPROVER_assert(cb->strong != 0, "model limit: a pointee destructor drops the last reference of another control block");
+    return;
+  }
   if (cb->strong == 0) {
-    __CPROVER_assert(cv_sp_depth == 0, "model limit: a pointee destructor drops the last reference of another control block");
-    if (cv_sp_depth != 0) return;
     cv_sp_depth = 1;
     gh_sp_disposed++;
     CV_SP_DISPOSE(CV_SP_OBJ(cb));                 /* the real translated ~T() */
